@@ -354,19 +354,15 @@ func zKey(k crypto.Signer) crypto.Signer {
 }
 
 // zLying builds a zcrypto certificate that presents leaf's chain but whose key operations are wrong.
-// mode: "subst" = another key of the same kind signs/decrypts; "flip" = right key, last signature byte flipped.
+// mode: "subst" = the private key of another key pair of the same kind; "flip" = right key, last signature byte flipped.
 func zLying(leaf *tlspair.Leaf, mode string) ztls.Certificate {
 	right := zKey(leaf.Key)
-	var real crypto.Signer = right
-	flip := false
-	switch mode {
-	case "subst":
-		real = zKey(tlspair.SecondSigner(leaf.Kind))
-	case "flip":
-		flip = true
+	if mode == "subst" {
+		// the chain of one key with the private key of another: no shim needed
+		return ztls.Certificate{Certificate: leaf.Chain, PrivateKey: zKey(tlspair.SecondSigner(leaf.Kind))}
 	}
-	sh := shimSigner{pub: right.Public(), real: real, flip: flip}
-	if d, ok := real.(crypto.Decrypter); ok && leaf.Kind == tlspair.RSA2048 {
+	sh := shimSigner{pub: right.Public(), real: right, flip: true}
+	if d, ok := right.(crypto.Decrypter); ok && leaf.Kind == tlspair.RSA2048 {
 		return ztls.Certificate{Certificate: leaf.Chain, PrivateKey: &shimDecrypter{shimSigner: sh, dec: d}}
 	}
 	return ztls.Certificate{Certificate: leaf.Chain, PrivateKey: &sh}
@@ -374,19 +370,24 @@ func zLying(leaf *tlspair.Leaf, mode string) ztls.Certificate {
 
 // gLying is the same for Go's crypto/tls.
 func gLying(leaf *tlspair.Leaf, mode string) gotls.Certificate {
-	var real crypto.Signer = leaf.Key
-	flip := false
-	switch mode {
-	case "subst":
-		real = tlspair.SecondSigner(leaf.Kind)
-	case "flip":
-		flip = true
+	if mode == "subst" {
+		return gotls.Certificate{Certificate: leaf.Chain, PrivateKey: tlspair.SecondSigner(leaf.Kind)}
 	}
-	sh := shimSigner{pub: leaf.Key.Public(), real: real, flip: flip}
-	if d, ok := real.(crypto.Decrypter); ok && leaf.Kind == tlspair.RSA2048 {
+	sh := shimSigner{pub: leaf.Key.Public(), real: leaf.Key, flip: true}
+	if d, ok := leaf.Key.(crypto.Decrypter); ok && leaf.Kind == tlspair.RSA2048 {
 		return gotls.Certificate{Certificate: leaf.Chain, PrivateKey: &shimDecrypter{shimSigner: sh, dec: d}}
 	}
 	return gotls.Certificate{Certificate: leaf.Chain, PrivateKey: &sh}
+}
+
+// localError reports whether a handshake error was raised by this endpoint itself
+// (as opposed to an alert received from, or a connection closed by, the peer).
+func localError(e error) bool {
+	if e == nil {
+		return false
+	}
+	s := e.Error()
+	return !strings.HasPrefix(s, "remote error") && !strings.Contains(s, "EOF") && !strings.Contains(s, "closed pipe")
 }
 
 var _ = zrsa.PSSSaltLengthEqualsHash
